@@ -50,6 +50,7 @@ CODES = {
     # reports, 24 AnySignedBy, 25 AllSignedBy; 30 image does not load, 31 NewSigner/Sign result, 32 signed bytes
     "C09": {1, 2, 3, 5, 9, 14},
     "C18": {11},
+    "C15": {40, 41, 42},
     "C10": {1, 2, 3, 4, 10, 11, 20, 21, 22, 23, 24, 25},
     "C04": {20, 21, 22, 23},
     "C05": {20, 21, 22, 23},
@@ -64,6 +65,7 @@ CODE_NAMES = {1: "result", 2: "in-memory header", 3: "in-memory descriptors", 4:
               8: "header/table region", 9: "backing length", 10: "handle presence", 11: "query answer", 12: "backend call reply", 13: "backend final contents",
               14: "storage-call trace", 20: "image does not load in the model", 21: "NewVerifier result", 22: "Verify result",
               23: "verification callback reports", 24: "AnySignedBy", 25: "AllSignedBy",
+              40: "siftool exit status", 41: "file after the siftool command", 42: "standard output of siftool dump",
               30: "image does not load in the model", 31: "NewSigner/Sign result", 32: "bytes after signing"}
 
 TRUSTED_BASE = [
@@ -289,6 +291,12 @@ def crash_args(tier, seed, variant=""):
     return ["-seed", str(seed), "-n", "400", "-shards", "48", "-maxcap", "12", "-maxops", "24", "-bigevery", "40", "-thorough"]
 
 
+def siftool_args(tier, seed, variant=""):
+    if tier == "quick":
+        return ["-seed", str(seed), "-n", "48", "-shards", "12", "-maxops", "10"]
+    return ["-seed", str(seed), "-n", "600", "-shards", "48", "-maxops", "24", "-thorough"]
+
+
 def hostile_args(tier, seed, variant=""):
     return ["-seed", str(seed), "-n", "0"] + (["-thorough"] if tier != "quick" else [])
 
@@ -313,6 +321,7 @@ def verify_args(mode, nq, nt):
 
 FAMILIES = {
     "C09": [("crash", crash_args)],
+    "C15": [("siftool", siftool_args)],
     "C10": [("hostile", hostile_args), ("load", load_args), ("verify", verify_args("tamper", 24, 300))],
     "C18": [("concurrent", concurrent_args), ("hist", hist_small_args), ("verify", verify_args("signedby", 20, 200))],
     "C04": [("verify", verify_args("tamper", 60, 100000))],
